@@ -62,7 +62,7 @@ var RespVariants = map[string][]string{
 	"accept":     {"canonical", "absent", "case-name", "blanks", "other-key", "len27", "len29", "empty", "dup-same", "dup-diff", "lowercased", "noncanonical-base64", "one-char-off", "urlsafe-alphabet", "sha1-of-key-only", "quoted", "trailing-cr"},
 	"protocol":   {"none", "first", "last", "unrequested", "valid-then-unrequested", "unrequested-then-valid", "two-valid", "empty-value", "list", "case-changed", "list-requested-first", "list-all-requested"},
 	"extensions": {"none", "first", "first-with-params", "all", "unoffered", "offered-then-unoffered", "malformed", "empty-value", "all-separate-lines", "separate-lines-then-unoffered"},
-	"extra":      {"none", "some", "long-value", "no-colon-line", "token-names", "blank-value"},
+	"extra":      {"none", "some", "long-value", "no-colon-line", "token-names", "blank-value", "request-only-headers"},
 	"eol":        {"crlf", "lf"},
 }
 
@@ -329,6 +329,12 @@ func BuildResp(rng *rand.Rand, choice map[string]string, in ReqInfo) *Resp {
 		add([]string{"Server", "X-Thing", "Set-Cookie"}[rng.Intn(3)], []string{"", " ", "  ", "\t", " \t "}[rng.Intn(5)])
 		if rng.Intn(2) == 0 {
 			add("X-Other", " v")
+		}
+	case "request-only-headers":
+		// headers that mean something in the OTHER direction of the handshake only (a reflecting proxy, a server
+		// framework that copies request headers): to the client they are headers like any other
+		for _, h := range [][2]string{{"Host", " reflected.example"}, {"Sec-WebSocket-Key", " dGhlIHNhbXBsZSBub25jZQ=="}, {"Sec-WebSocket-Version", " 13"}, {"sec-websocket-version", " 8"}}[:1+rng.Intn(4)] {
+			add(h[0], h[1])
 		}
 	case "no-colon-line":
 		r.Headers = append(r.Headers, Hdr{Raw: "line without colon"})
